@@ -74,6 +74,16 @@ func genGate(r *Rng, prop string, k int) *RunSpec {
 	// a tombstone and a value with hidden recipients for the handler
 	tomb := hostPrefix(st) + "/n/tomb"
 	st.W.Servers[0].Docs = append(st.W.Servers[0].Docs, DocSpec{tomb, mustJSON(J{"@context": asCtx, "type": "Tombstone", "id": tomb, "formerType": "Note", "deleted": "2020-01-01T00:00:00Z"})})
+	if r.Intn(5) == 0 {
+		// the application also handles types the library has no default behaviour for (parents of handled types among them)
+		cbs := map[string]string{}
+		for _, t := range []string{"Ignore", "Offer", "Activity"} {
+			if r.Bool() {
+				cbs[t] = "other"
+			}
+		}
+		st.W.Servers[0].FedCb, st.W.Servers[0].SocCb = cbs, cbs
+	}
 	ex := gateExpect{Req: map[string]gateReq{}}
 	n := 1 + r.Intn(3)
 	var reqs []ReqSpec
@@ -130,6 +140,26 @@ func genGate(r *Rng, prop string, k int) *RunSpec {
 		}
 		if kind == "handler" {
 			rq.Path = pathOf(Pick(r, []string{st.Note1, st.Note2, tomb, hostPrefix(st) + "/n/none", st.Col1}))
+		}
+		if kind == "postInbox" && len(reqs) > 0 && r.Intn(3) == 0 {
+			// a peer fans one activity out to several inboxes of this server: same body, same id, its own checks per request
+			for j := len(reqs) - 1; j >= 0; j-- {
+				if reqs[j].Kind == "postInbox" {
+					pg := ex.Req[reqs[j].ID]
+					rq.Body, rq.RawBody = reqs[j].Body, reqs[j].RawBody
+					ge.Body, ge.Type = pg.Body, pg.Type
+					if r.Bool() {
+						// ... in the very same way
+						rq.Method, rq.ContentType, rq.Accept, rq.Auth = reqs[j].Method, reqs[j].ContentType, reqs[j].Accept, reqs[j].Auth
+						ge.Method, ge.Hdr = pg.Method, pg.Hdr
+					}
+					break
+				}
+			}
+		}
+		// a request whose context is already done when it arrives (the client went away): classification and checks as ever
+		if r.Intn(12) == 0 {
+			rq.CtxDone = Pick(r, []string{"canceled", "deadline"})
 		}
 		// block outcome (inbox only): through the blocked list or a fault on the Blocked call
 		if kind == "postInbox" {
@@ -205,9 +235,19 @@ func gateBody(r *Rng, st *Std, kind string, rq *ReqSpec, ge *gateReq) {
 		}
 	}
 	body := cloneJ(Pick(r, valid))
+	variant := r.Intn(14)
+	if len(st.W.Servers[0].FedCb) > 0 && r.Bool() {
+		// with callbacks for parent types configured, look at the types that extend them: their defaults must be untouched
+		for _, v := range valid {
+			if t := typeOf(v); t == "Block" || (t == "Follow" && r.Bool()) {
+				body = cloneJ(v)
+			}
+		}
+		variant = Pick(r, []int{6, 7, 13})
+	}
 	ge.Type = typeOf(body)
 	ge.Body = "valid"
-	switch r.Intn(14) {
+	switch variant {
 	case 0:
 		ge.Body = "bare"
 		body = J{"@context": asCtx, "type": "Note", "content": "bare", "to": st.Dave}
@@ -233,9 +273,13 @@ func gateBody(r *Rng, st *Std, kind string, rq *ReqSpec, ge *gateReq) {
 		}
 	case 5:
 		if kind == "postInbox" {
-			v := Pick(r, []string{"idempty", "idnumber", "idobject", "idrelative"})
+			v := Pick(r, []string{"idempty", "idnumber", "idobject", "idrelative", "idurn"})
 			ge.Body = v
 			switch v {
+			case "idurn":
+				// an absolute IRI without an authority is an absolute IRI
+				ge.Body = "valid"
+				body["id"] = Pick(r, []string{"urn:uuid:6a1c4a52-7f3d-4c1e-9d55-0c8a7e2b9f10", "tag:r.example,2019:act/77", "did:example:123456789abcdefghi#act"})
 			case "idempty":
 				body["id"] = ""
 			case "idnumber":
@@ -312,6 +356,24 @@ func oracleGate(c *DriveCtx, res *Result) {
 	var ex gateExpect
 	mustUnmarshal(res.Spec.Expect, &ex)
 	s := res.Sim
+	// the same activity delivered more than once to one inbox: whichever delivery comes second is recognised as a duplicate and
+	// not processed again (C08), so it cannot be told that the activity lacked something - 200 is its legal answer
+	delivered := map[string]int{}
+	dupKey := func(t *Task) string {
+		if t.Req == nil || t.Req.Kind != "postInbox" || t.Req.Body == nil {
+			return ""
+		}
+		b, err := parseJ(t.Req.Body)
+		if err != nil || idOf(b) == "" {
+			return ""
+		}
+		return t.Req.Actor + "|" + idOf(b)
+	}
+	for _, t := range res.Tasks {
+		if k := dupKey(t); k != "" && t.Parent == nil {
+			delivered[k]++
+		}
+	}
 	for _, t := range res.Tasks {
 		if t.Parent != nil || t.Req == nil || !t.done || t.Panic != nil {
 			continue // a panic is C11's finding
@@ -430,6 +492,8 @@ func oracleGate(c *DriveCtx, res *Result) {
 					allow([]int{403}, false)
 				} else if inbox && ge.Blocked == "err" {
 					allow(nil, true)
+				} else if inbox && delivered[dupKey(t)] > 1 {
+					allow([]int{400, 200}, false)
 				} else {
 					allow([]int{400}, false)
 				}
